@@ -242,3 +242,41 @@ contract(Contract(
         ("    if last_end < len(text):\n", "    if last_end < len(text) - 1:\n", None, ["tiles_whole_text"]),
     ],
 ))
+
+
+# --------------------------------------------------------------------------- _apply_smart_quotes_to_text (apostrophe pass)
+contract(Contract(
+    target=SQ + ":_apply_smart_quotes_to_text",
+    props=["C08"],
+    params={"text": "str"},
+    types={"words": "list[str]", "w0": "list[str]", "word": "str", "quote_count": "int", "result": "str", "apostrophe_pattern": "str", "paired": "str"},
+    assumes=["re.split(r'(\\s+)', s) returns pieces that concatenate to s (capturing split tiles the string)",
+             "re.sub(r\"\\'\", '\\u2019', w) replaces single characters by single characters (relation Q, character level: "
+             "covered by the exhaustive short-string layer)", "QUOTE_PATTERN.sub(replace_quotes, .) by the callback contract and the "
+             "unchecked congruence lemma"],
+    calls={
+        "Pattern.sub": Callee("uf", ret="str", sig=["self", "repl", "string"]),
+        "re.split": Callee("uf", ret="list[str]", sig=["pattern", "string"],
+                           post=lambda ex, b, r: ex.mk_joinr(ex.th.empty, r.arr, z3.IntVal(0), ex.z(r.length)) == ex.z(b["string"])),
+        "re.search": Callee("uf", ret="bool", sig=["pattern", "string"]),
+        "re.match": Callee("uf", ret="bool", sig=["pattern", "string"]),
+        "re.sub": Callee("uf", ret="str", sig=["pattern", "repl", "string"]),
+    },
+    ghost={"w0": "[]", "paired": "''"},
+    hooks=[("after", "assign:words", "w0 = list(words)"), ("after", "assign:result", "paired = result")],
+    defs={"apos(w)": "call('re.sub', \"\\\\'\", '\\u2019', w)"},
+    loops={0: Loop(inv={
+        "len": "len(words) == len(w0)",
+        # a word is left alone or has its straight single quote replaced by the apostrophe; nothing else is touched
+        "done": "all(words[j] == w0[j] or words[j] == apos(w0[j]) for j in range(_i))",
+        "rest": "all(implies(j >= _i, words[j] == w0[j]) for j in range(len(words)))",
+    }, modifies=[], decreases="len(w0) - _i")},
+    ensures={
+        "pieces_tile_the_paired_result": "joinr('', w0, 0, len(w0)) == paired",
+        "joined": "result == joinr('', words, 0, len(words))",
+        "only_per_word_apostrophes": "len(words) == len(w0) and all(words[j] == w0[j] or words[j] == apos(w0[j]) for j in range(len(w0)))",
+    },
+    canaries=[
+        ('words[i] = re.sub(r"\\\'", "\\u2019", word)\n            # Check if it\'s a possessive', 'words[i] = word.strip()\n            # Check if it\'s a possessive', None, ["done", "only_per_word"]),
+    ],
+))
